@@ -79,6 +79,7 @@ struct data_action
     bool reset = false;
     bool truncate = false;          // TLS: close TCP without sending close-notify
     long long limit = -1;
+    bool pause = false;                  // send: sleep a few milliseconds between segments so that the reader sees them one by one
 };
 
 struct group
@@ -113,8 +114,9 @@ inline bool parse_group(const std::string & s, group & g)
                 g.act.kind = data_action::send;
                 if (!parse_payload(p[1], g.act.payload)) return false;
                 g.act.sizes = dotlist(p[2]);
-                g.act.reset = p[3] == "r";
-                g.act.truncate = p[3] == "t";
+                g.act.reset = !p[3].empty() && p[3][0] == 'r';
+                g.act.truncate = !p[3].empty() && p[3][0] == 't';
+                g.act.pause = p[3].find('p') != std::string::npos;     // "cp": a short pause between the segments
             }
             else if (p[0] == "recv" && p.size() == 3)
             {
@@ -237,6 +239,7 @@ public:
                                         : ::send(fd, act.payload.data() + pos, n, MSG_NOSIGNAL);
                         if (w <= 0) { err = "send-failed"; break; }
                         pos += static_cast<std::size_t>(w);
+                        if (act.pause && pos < act.payload.size()) std::this_thread::sleep_for(std::chrono::milliseconds(3));
                     }
                     sent = pos;
                 }
